@@ -37,7 +37,17 @@ def main(tier):
                sample={"constant": s, "bits": bits})
     # never turned into Err: the arithmetic arms contain no Err constructor and no finiteness test
     arms = m.tb.eval_arms()
-    for ctor in ("Add", "Subtract", "Multiply", "Divide", "Modulo", "Negative", "Pow", "Abs", "Floor", "Ceil", "Truncate", "Round", "Sqrt", "Number"):
+    ctors = []
+    for kind, s_ in OPS:
+        fn_ = {"bin": chain.binary_chain, "pre": chain.prefix_chain, "fn": chain.function_chain}[kind]
+        r_, _ = fn_(m, s_)
+        if r_ and r_[0] not in ctors and r_[0] != "identity":
+            ctors.append(r_[0])
+    lf = chain.leaf_ctor(m)
+    if lf:
+        ctors.append(lf.split("::")[1])
+    run.floor("arithmetic constructors resolved from the surface syntax", len(ctors), 12)
+    for ctor in ctors:
         a = arms.get(ctor)
         if a is None:
             run.ob(False, "arm|eval_f64|%s" % ctor, "C05 arm present", where(m, "::ast::eval"), "no arm for %s" % ctor)
